@@ -113,7 +113,11 @@ fn handle_name(h: &Handle_) -> &'static str {
 }
 
 /// kinds: bitmask over [clone, stream, rule-stream, proxy, signal-stream, iface-ref, cached-proxy]
-fn drop_scenario(mask: u32, with_server: bool) -> ExecResult {
+/// server modes: 0 = no object server; 1 = an interface served from the builder; 2 = the same and
+/// one method call was dispatched, handled and answered before the drops begin; 3 = the object
+/// server is created on demand after the connection was built (`conn.object_server().at(..)`)
+fn drop_scenario(mask: u32, server_mode: u8) -> ExecResult {
+    let with_server = server_mode != 0;
     let mut w = World::new();
     w.horizon = 400;
     let link = Link::new();
@@ -124,12 +128,18 @@ fn drop_scenario(mask: u32, with_server: bool) -> ExecResult {
                 .unwrap()
                 .p2p()
                 .internal_executor(false);
-            if with_server {
+            if server_mode == 1 || server_mode == 2 {
                 b = b
                     .serve_at("/s", Slow { gate: Gate::default(), started: Default::default() })
                     .unwrap();
             }
             let conn = b.build().await.unwrap();
+            if server_mode == 3 {
+                conn.object_server()
+                    .at("/s", Slow { gate: Gate::default(), started: Default::default() })
+                    .await
+                    .unwrap();
+            }
             let mut hs: Vec<Handle_> = vec![];
             if mask & 1 != 0 {
                 hs.push(Handle_::Clone(conn.clone()));
@@ -167,6 +177,21 @@ fn drop_scenario(mask: u32, with_server: bool) -> ExecResult {
         })
         .expect("build");
     let (conn, mut hs) = built;
+    if server_mode == 2 {
+        // one call goes through dispatch, handler and reply before anything is dropped
+        let call = zbus::Message::method_call("/s", "Quick").unwrap().interface("a.b.Slow").unwrap().build(&()).unwrap();
+        let serial = call.primary_header().serial_num();
+        link.b2a.push(call.data().bytes(), vec![]);
+        w.settle();
+        let out = link.a2b.written();
+        let (msgs, _) = split_messages(&out);
+        let answered = msgs.iter().any(|r| parse_message(&out[r.clone()]).map(|m| m.header().reply_serial() == Some(serial)).unwrap_or(false));
+        if !answered {
+            let mut res = ExecResult::default();
+            res.violations.push(v("harness", "the warm-up call was not answered").feat("kind", "harness"));
+            return res;
+        }
+    }
     if mask & 64 != 0 {
         // a proxy with caching on: the harness plays the remote object and answers GetAll
         let c2 = conn.clone();
@@ -244,14 +269,18 @@ fn drop_scenario(mask: u32, with_server: bool) -> ExecResult {
         res.violations.push(
             v("closed-when-last-handle-dropped", format!("every handle was dropped and nothing is runnable, but the peer does not see the transport closing (write half alive); trace={:?}", w.trace))
                 .feat("kind", "never-closed")
-                .feat("with_server", with_server),
+                .feat("with_server", with_server)
+                .feat("server_mode", server_mode as u64),
         );
     }
     res.log = std::mem::take(&mut w.log);
     res
 }
 
-fn shutdown_scenario(spawn: bool, extra_clone: bool) -> ExecResult {
+/// modes: 0 = the handler is in flight (gated) when shutdown is requested; 1 = the handler was
+/// released and has replied before shutdown is requested; 2 = no object server was ever created
+/// and no call was made
+fn shutdown_scenario(spawn: bool, extra_clone: bool, mode: u8) -> ExecResult {
     let mut w = World::new();
     w.horizon = 400;
     let link = Link::new();
@@ -265,7 +294,9 @@ fn shutdown_scenario(spawn: bool, extra_clone: bool) -> ExecResult {
                 .unwrap()
                 .p2p()
                 .internal_executor(false);
-            let b = if spawn {
+            let b = if mode == 2 {
+                b
+            } else if spawn {
                 b.serve_at("/s", Slow { gate: g2, started: s2 }).unwrap()
             } else {
                 b.serve_at("/s", SlowNoSpawn { gate: g2, started: s2 }).unwrap()
@@ -275,22 +306,40 @@ fn shutdown_scenario(spawn: bool, extra_clone: bool) -> ExecResult {
         .expect("build");
     let call = zbus::Message::method_call("/s", "Work").unwrap().interface("a.b.Slow").unwrap().build(&()).unwrap();
     let call_serial = call.primary_header().serial_num();
-    link.b2a.push(call.data().bytes(), vec![]);
-    // let the handler start (default schedule; not part of the explored space)
-    w.settle();
     let mut res = ExecResult::default();
-    if !*started.lock().unwrap() {
-        res.violations.push(v("harness", "the gated handler did not start").feat("kind", "harness"));
-        return res;
-    }
-    let mut clone = if extra_clone { Some(conn.clone()) } else { None };
-    let shutdown = w.spawn("graceful_shutdown", conn.graceful_shutdown());
-    let mut released = false;
-    let replied = |link: &Link| {
+    let no_call = mode == 2;
+    let replied = move |link: &Link| {
+        if no_call {
+            return true;
+        }
         let out = link.a2b.written();
         let (msgs, _) = split_messages(&out);
         msgs.iter().any(|r| parse_message(&out[r.clone()]).map(|m| m.header().reply_serial() == Some(call_serial)).unwrap_or(false))
     };
+    let mut released = false;
+    if mode != 2 {
+        link.b2a.push(call.data().bytes(), vec![]);
+        // let the handler start (default schedule; not part of the explored space)
+        w.settle();
+        if !*started.lock().unwrap() {
+            res.violations.push(v("harness", "the gated handler did not start").feat("kind", "harness"));
+            return res;
+        }
+    }
+    if mode == 1 {
+        gate.open();
+        released = true;
+        w.settle();
+        if !replied(&link) {
+            res.violations.push(v("harness", "the released handler did not reply").feat("kind", "harness"));
+            return res;
+        }
+    }
+    if mode == 2 {
+        released = true;
+    }
+    let mut clone = if extra_clone { Some(conn.clone()) } else { None };
+    let shutdown = w.spawn("graceful_shutdown", conn.graceful_shutdown());
     let mut early = false;
     loop {
         if shutdown.is_done() && !replied(&link) && !early {
@@ -341,7 +390,8 @@ fn shutdown_scenario(spawn: bool, extra_clone: bool) -> ExecResult {
             res.violations.push(
                 v("shutdown-completes-once-handlers-replied", format!("the handler replied, every handle is gone, nothing is runnable, but graceful_shutdown never completed; trace={:?}", w.trace))
                     .feat("kind", "shutdown-hangs")
-                    .feat("spawn", spawn),
+                    .feat("spawn", spawn)
+                    .feat("mode", mode as u64),
             );
         }
     }
@@ -354,21 +404,28 @@ pub fn main(args: &Args) -> i32 {
         return crate::sched::replay(p, |name, j| {
             if name.starts_with("drop-handles") {
                 let mask = j["mask"].as_u64().unwrap_or(0) as u32;
-                let ws = j["with_server"].as_bool().unwrap_or(false);
+                let ws = j["server_mode"].as_u64().map(|m| m as u8).unwrap_or(j["with_server"].as_bool().unwrap_or(false) as u8);
                 Some(Box::new(move || drop_scenario(mask, ws)))
             } else {
                 let spawn = j["spawn"].as_bool().unwrap_or(true);
                 let ec = j["extra_clone"].as_bool().unwrap_or(false);
-                Some(Box::new(move || shutdown_scenario(spawn, ec)))
+                let mode = j["mode"].as_u64().unwrap_or(0) as u8;
+                Some(Box::new(move || shutdown_scenario(spawn, ec, mode)))
             }
         });
     }
     let report = Report::new("C39", args.tier, args.seed, "model_checking");
     let totals = Mutex::new(Totals::default());
     let quick = args.tier == vcommon::Tier::Quick;
-    for with_server in [false, true] {
+    for server_mode in [0u8, 1, 2, 3] {
+        let with_server = server_mode != 0;
         for mask in 0u32..128 {
             if !with_server && mask & 32 != 0 {
+                continue;
+            }
+            // modes 2 and 3 differ from mode 1 only in what happened before the drops: quick
+            // tier runs them for ≤ 1 handle kind and the full set
+            if quick && server_mode >= 2 && !(mask.count_ones() <= 1 || mask == 127) {
                 continue;
             }
             let n = mask.count_ones();
@@ -391,14 +448,14 @@ pub fn main(args: &Args) -> i32 {
             run_scenario(
                 &report,
                 &totals,
-                &format!("drop-handles-mask{mask:07b}-{}", if with_server { "server" } else { "plain" }),
-                json!({"mask": mask, "with_server": with_server}),
+                &format!("drop-handles-mask{mask:07b}-{}", ["plain", "server", "server-after-a-call", "server-on-demand"][server_mode as usize]),
+                json!({"mask": mask, "with_server": with_server, "server_mode": server_mode}),
                 &plan,
-                move || drop_scenario(mask, with_server),
+                move || drop_scenario(mask, server_mode),
             );
         }
     }
-    for spawn in [true, false] {
+    for (spawn, mode) in [(true, 0u8), (false, 0), (true, 1), (false, 1), (true, 2)] {
         for extra_clone in [false, true] {
             let plan = SchedPlan {
                 bounds: if quick { vec![Some(6)] } else { vec![None] },
@@ -408,10 +465,15 @@ pub fn main(args: &Args) -> i32 {
             run_scenario(
                 &report,
                 &totals,
-                &format!("graceful-shutdown-{}{}", if spawn { "spawn" } else { "nospawn" }, if extra_clone { "-clone" } else { "" }),
-                json!({"spawn": spawn, "extra_clone": extra_clone}),
+                &format!(
+                    "graceful-shutdown-{}{}{}",
+                    if spawn { "spawn" } else { "nospawn" },
+                    ["", "-handler-finished-before", "-no-object-server"][mode as usize],
+                    if extra_clone { "-clone" } else { "" }
+                ),
+                json!({"spawn": spawn, "extra_clone": extra_clone, "mode": mode}),
                 &plan,
-                move || shutdown_scenario(spawn, extra_clone),
+                move || shutdown_scenario(spawn, extra_clone, mode),
             );
         }
     }
@@ -420,6 +482,6 @@ pub fn main(args: &Args) -> i32 {
     finish_model_checking(
         &report,
         &totals,
-        "A: every subset of handle kinds × every drop order × task polls (DFS, deviation bound); B: graceful shutdown with a gated in-flight handler (spawn on/off, extra clone), release/drop as environment events",
+        "A: every subset of handle kinds × object server {none, from the builder, from the builder after one handled call, created on demand} × every drop order × task polls (DFS, deviation bound); B: graceful shutdown with a gated in-flight handler, with a handler that finished before, and without an object server (spawn on/off, extra clone), release/drop as environment events",
     )
 }
